@@ -4,10 +4,11 @@
 //
 //   stdin : one case per line
 //     K id mode  x y hw hh  n x0 y0 ...  k i0 ...  m th0 ...  r q0 ...
-//       numbers are "m:e" = m * 2^e (exact);  mode E: QuadTree(data,x,y,hw,hh) then insert(i) for the k
+//       numbers are "m:e" = m * 2^e (exact; "-0:0" = the double -0.0, sign bit set);  mode E: QuadTree(data,x,y,hw,hh) then insert(i) for the k
 //       indices in order;  mode F: QuadTree(data,n,x,y,hw,hh) (fill);  mode A: QuadTree(data,n)
 //       (mean-centred root, what tsne.hpp uses; x y hw hh ignored)
 //   stdout: "C id" (flushed first, so that an abort can be attributed), then
+//     Z k                        number of data / root-centre coordinates that are the double -0.0
 //     R b..                      insert() results (mode E)
 //     T ncells
 //     c L|N x y hw hh size index[0] count[0] cum_size com0 com1     one line per cell, preorder NW NE SW SE
@@ -64,6 +65,10 @@ static double parse_num(const std::string& s)
         return (double)atoll(s.c_str());
     m = atoll(s.substr(0, k).c_str());
     e = atoi(s.substr(k + 1).c_str());
+    // "-0:e" is the NEGATIVE zero (sign bit set): numerically equal to "0:0" (the exact model reads both as 0), a
+    // different bit pattern for the library
+    if (m == 0 && !s.empty() && s[0] == '-')
+        return -0.0;
     return ldexp((double)m, e);
 }
 
@@ -235,6 +240,15 @@ int main()
         bool want_matrix = (want == "P");
 
         printf("C %s\n", id.c_str());
+        {
+            // how many coordinates reach the library as the double -0.0 (the check compares with what it sent)
+            int nz = 0;
+            for (int i = 0; i < 2 * n; i++)
+                nz += (data[i] == 0.0 && std::signbit(data[i])) ? 1 : 0;
+            for (int d = 0; d < 2; d++)
+                nz += (root[d] == 0.0 && std::signbit(root[d])) ? 1 : 0;
+            printf("Z %d\n", nz);
+        }
         fflush(stdout);
 
         QuadTree* tree = NULL;
